@@ -518,6 +518,12 @@ impl Prop for ReadyDuringSearch {
         for _ in 0..case.pings {
             u.send("isready");
         }
+        // the last ping of every second case is followed by a `uci`, which must be answered
+        // during the search as well
+        let uci_ping = case.movetime % 2 == 0;
+        if uci_ping {
+            u.send("uci");
+        }
         match case.then % 3 {
             1 => {
                 u.send("stop");
@@ -541,6 +547,16 @@ impl Prop for ReadyDuringSearch {
         // answered while the search runs: a readyok that arrives after the bestmove of that search
         // is late - unless the bestmove was already on its way when the ping was written (it then
         // arrives within milliseconds of the ping; half a second of grace)
+        if uci_ping {
+            match out.iter().find(|(_, l)| *l == "uciok") {
+                None => return Err(format!("uci sent while '{}' was running was not answered with uciok\n{}", go, u.transcript())),
+                Some((i, _)) => {
+                    if best != usize::MAX && *i > best && u.stamps[best].duration_since(ping_sent) > Duration::from_millis(500) {
+                        return Err(format!("uci sent while '{}' was running on '{}' was answered only after that search's bestmove\n{}", go, fen, u.transcript()));
+                    }
+                }
+            }
+        }
         if best != usize::MAX {
             let best_at = u.stamps[best];
             if let Some(late) = readies.iter().find(|i| **i > best) {
